@@ -76,7 +76,7 @@ SExists(f, v) == SCond(f, v, TRUE) \cup SCond(f, v, FALSE)
 SLit(v) == {a \in Assign : Bit(a, v)}
 SIff(f, g) == {a \in Assign : (a \in f) = (a \in g)}
 
-(* ---- machine state threaded through the recursion: [t |-> node set, c |-> cache] ---- *)
+(* ---- machine state threaded through the recursion: [t |-> node set, c |-> cache, n |-> number of recursive calls] ---- *)
 (* get_or_insert: normalise, then store (structural identity) *)
 GetOrInsert(m, v, lo, hi) ==
   IF IsNeg(hi) \/ IsFalse(hi)
@@ -131,8 +131,9 @@ CondEss(f, lbl, v) ==
   ELSE IF VarOf(f) # lbl THEN f
   ELSE LET r == IF v THEN HighRaw(f) ELSE LowRaw(f) IN IF IsNeg(f) THEN Neg(r) ELSE r
 RECURSIVE IteH(_, _, _, _)
-IteH(m, f, g, h) ==
-  LET k == IteNew(f, g, h) IN
+IteH(m0, f, g, h) ==
+  LET m == [m0 EXCEPT !.n = @ + 1]                    \* stats.num_recursive_calls += 1
+      k == IteNew(f, g, h) IN
   IF k.kind = "const" THEN [r |-> k.f, m |-> m]
   ELSE LET hit == CacheGet(m, k) IN
   IF hit # None THEN [r |-> hit, m |-> m]
@@ -147,7 +148,8 @@ IteH(m, f, g, h) ==
 (* ---- cond_with_alloc: the per-call memo (set of <<pointer, value>>) is threaded too ---- *)
 MemoGet(memo, p) == IF \E e \in memo : e[1] = p THEN (CHOOSE e \in memo : e[1] = p)[2] ELSE None
 RECURSIVE CondH(_, _, _, _, _)
-CondH(m, memo, p, lbl, value) ==
+CondH(m0, memo, p, lbl, value) ==
+  LET m == [m0 EXCEPT !.n = @ + 1] IN                 \* stats.num_recursive_calls += 1
   IF IsConst(p) THEN [r |-> p, m |-> m, memo |-> memo]
   ELSE IF Lt(lbl, VarOf(p)) THEN [r |-> p, m |-> m, memo |-> memo]
   ELSE IF VarOf(p) = lbl
@@ -183,7 +185,7 @@ ComposeM(m, f, v, g) ==
 
 (* ---- the machine ---- *)
 Ptrs == {T, F} \cup tbl \cup {Neg(n) : n \in tbl}
-M == [t |-> tbl, c |-> cache]
+M == [t |-> tbl, c |-> cache, n |-> 0]
 Commit(res, expected) ==
   /\ tbl' = res.m.t
   /\ cache' = res.m.c
